@@ -478,4 +478,16 @@ theorem dispatch_mov_moffs (c : Model.X86.Ctx) (row : Row) (k : RegKind) (m : Me
     (simp [kindSize, Op.rmSize, rtypeOf] at huse
      simp [dispatch, henc, sig3, Op.kind, Op.id, Op.rmSize, Op.isGp, Op.isGp8Hi, rtypeOf, kindSize, hb, hi, huse, movAbsOpc, addArithBySize, kPP_66, kW])
 
+/-! ### class VexRvm_Wx (andn, vcvtsi2sd / vcvtsi2ss / vcvtusi2sd ... with a general-purpose operand): its entries are part of the `rvm` chunk
+(`finalOp` adds W for a 64-bit destination or an 8-byte r/m operand), so every `front_cls_correct_rvm*` theorem covers them; the class switch: -/
+
+theorem dispatch_rvm_wx (c : Model.X86.Ctx) (row : Row) (options : BitVec 32) (t0 t1 t2 i0 i1 i2 : Nat) (m : Mem) (henc : row.encoding = 0x73) :
+    dispatch c row options (.reg t0 i0) (.reg t1 i1) (.reg t2 i2) .none =
+      emitVexEvexR c (row.mainOp ||| (if (Op.reg t0 i0).rmSize == 8 && (Op.reg t0 i0).isGp || (Op.reg t2 i2).rmSize == 8 then kW else 0#32))
+        options (packRegVvvvv i0 i1) (r32 i2) 0 0 ∧
+    dispatch c row options (.reg t0 i0) (.reg t1 i1) (.mem m) .none =
+      emitVexEvexM c (row.mainOp ||| (if (Op.reg t0 i0).rmSize == 8 && (Op.reg t0 i0).isGp || m.size == 8 then kW else 0#32))
+        options (packRegVvvvv i0 i1) m 0 0 := by
+  constructor <;> simp [dispatch, henc, sig3, Op.kind, Op.id, Op.rmSize]
+
 end AsmjitVerif.Props.C01
